@@ -41,6 +41,55 @@ SPEC = dict(
                  "code of packages that are not rewritten (index, lib/*) runs atomically between points",
                  "virtual time (testing/synctest): timers fire only when no thread is enabled"],
 )
+
+
+def run(tier, replay):
+    """Scheduler exploration (deciding step); thorough adds the free-running -race side pass (caveat only)."""
+    import shutil, time
+    if replay or tier != "thorough" or os.environ.get("VERIF_C04_SKIP_RACE"):
+        return checklib.run_gotest_check("C04", tier if not replay else "quick", SPEC, replay)
+    t0 = time.time()
+    cid = "C04"
+    ov = checklib.gen_overlay(cid, SPEC["hooks"], overlay_extra(cid, tier))
+    binp = checklib.go_test_build(cid, SPEC["pkg"], ov)
+    scratch = checklib.scratch_root(cid)
+    try:
+        dl = int(os.environ.get("VERIF_DEADLINE_S", SPEC["deadline"][tier]))
+        reps = checklib.run_workers(cid, binp, SPEC["test"], tier, SPEC["workers"], dl, os.path.join(scratch, "a"), extra_env=SPEC.get("env"))
+        extra = {}
+        try:
+            ov2 = checklib.gen_overlay(cid, SPEC["hooks"])  # no shim: plain sync, plain go statements
+            rbin = checklib.go_test_build(cid, SPEC["pkg"], ov2, out=os.path.join(checklib.build_dir(cid), "t-race.bin"), race=True)
+            rdir = os.path.join(scratch, "race")
+            rreps = checklib.run_workers(cid, rbin, "TestVerifC04Race", tier, 8, 600, rdir, extra_env={"GORACE": "halt_on_error=0"},
+                                         keep_logs=True, mem_kb=None)
+            races = 0
+            sites = set()
+            for i in range(8):
+                lp = os.path.join(rdir, "w%d" % i, "log.txt")
+                if os.path.exists(lp):
+                    txt = open(lp, errors="replace").read()
+                    races += txt.count("WARNING: DATA RACE")
+                    for blk in txt.split("WARNING: DATA RACE")[1:]:
+                        for line in blk.splitlines():
+                            line = line.strip()
+                            if line.startswith("/") and "/repo/" in line:
+                                sites.add(line.split(" ")[0].split("/repo/")[-1])
+                                break
+            extra = {"race_pass": {"executions": sum(r.get("evaluations", 0) for r in rreps), "data_race_reports": races,
+                                   "first_repo_frames": sorted(sites)[:20],
+                                   "oracle_violations_free_running": sum(r.get("n_violations", 0) for r in rreps),
+                                   "note": "auxiliary free-running -race pass; a caveat on the sequential-consistency assumption, not a verdict"}}
+            for r in rreps:
+                for v in r.get("violations") or []:
+                    reps.append({"evaluations": 0, "violations": [v], "n_violations": 1, "counters": {}, "exhaustive": True, "notes": [], "_distinct": set()})
+        except SystemExit:
+            extra = {"race_pass": {"note": "race binary could not be built or run; side pass skipped"}}
+        return checklib.finish(cid, tier, SPEC["level"], SPEC["rule"], reps, t0, SPEC.get("assumptions"), extra_cov=extra)
+    finally:
+        shutil.rmtree(scratch, ignore_errors=True)
+
+
 CLAIMED = True
 MANIFEST = dict(
     level="exploration", engine="sched",
